@@ -194,7 +194,12 @@ def check_soup(case):
 
 
 def ends_with_block_tag(toks):
-    return bool(toks) and toks[-1][0] == 'tag' and toks[-1][4][0] != 'inline'
+    """The source ends with a block tag, possibly followed by blanks only
+    (which, together with a newline that follows, form one line end)."""
+    i = len(toks) - 1
+    while i >= 0 and toks[i][0] == 'lit' and not toks[i][1].strip(' \t'):
+        i -= 1
+    return i >= 0 and toks[i][0] == 'tag' and toks[i][4][0] != 'inline'
 
 
 def check_concat(case):
@@ -212,7 +217,8 @@ def check_concat(case):
     nt = any(t[0] == 'tag' for t in ta) and any(t[0] == 'tag' for t in tb)
     if ra[0] != 'text' or rb[0] != 'text':
         return fails, False
-    if ends_with_block_tag(ta) and model.SKIP_EOL.match(sb):
+    tail = sa[len(sa.rstrip(' \t')):]
+    if ends_with_block_tag(ta) and model.SKIP_EOL.match(tail + sb):
         # excluded by the statement: only that line end may disappear
         try:
             out_m, _, _ = harness.run_model(ua + ub, NS)
